@@ -289,7 +289,11 @@ fn cmd_run(args: &[String]) -> i32 {
         let jpart = if job.split {
             part
         } else {
-            if idx % part.1 != part.0 {
+            // spread whole jobs over the processes by a hash of the id (index order correlates
+            // with cost: specs and bounds cycle)
+            let _ = idx;
+            let h = job.id.bytes().fold(0xcbf29ce484222325u64, |h, b| (h ^ b as u64).wrapping_mul(0x100000001b3));
+            if (h >> 7) as usize % part.1 != part.0 {
                 continue;
             }
             (0, 1)
